@@ -5,7 +5,7 @@ from vlib.core import HOLDS, VIOLATED, UNDECIDED, ERROR
 from vlib.x86sym import loader, bv
 from vlib.x86sym.interp import Exec
 from vlib.x86sym.machine import Violation, Unsupported
-from vlib.x86sym.runner import Setup, build_native_driver, validate_concrete, run_native, native_crash_replay
+from vlib.x86sym.runner import Setup, build_native_driver, validate_concrete, run_native, native_crash_replay, smt_check
 
 KERNELS = {"sse": "mem/mem_zero_detect_sse.asm", "avx": "mem/mem_zero_detect_avx.asm",
            "avx2": "mem/mem_zero_detect_avx2.asm", "avx512": "mem/mem_zero_detect_avx512.asm"}
@@ -58,7 +58,7 @@ def zero_one(var, n, offs, ctx):
             validated += 1
         for off in offs:
             data = [z3.BitVec("b%d" % i, 8) for i in range(n)]
-            solver = z3.Solver()
+            solver = z3.SolverFor("QF_BV")
             ex = Exec(img, solver)
             setup = mk_setup(img, func, n, off, data)
             finals = ex.run(setup.initial_state())
@@ -68,8 +68,7 @@ def zero_one(var, n, offs, ctx):
             for st, out in finals:
                 if isinstance(out, Violation):
                     # memory-safety violation on a feasible path: get a model
-                    solver.check(*st.path)
-                    m = solver.model()
+                    _, m = smt_check(st.path)
                     cex = [m.eval(b, model_completion=True).as_long() for b in data]
                     rep, rlog = native_crash_replay(lambda g: mk_setup(img, func, n, off, cex, g), exe)
                     return {"status": VIOLATED, "detail": "%s at %r (len=%d off=%d); native guard-page replay: %s" % (out, out.insn, n, off, rlog),
@@ -83,11 +82,10 @@ def zero_one(var, n, offs, ctx):
                 if bv.b_is_c(ret0):
                     ret0 = z3.BoolVal(ret0)
                 stats["clauses"] += 1
-                r = solver.check(*(st.path + [ret0 != allzero]))
+                r, m = smt_check(st.path + [ret0 != allzero])
                 if r == z3.unknown:
                     return {"status": UNDECIDED, "detail": "z3 unknown", "stats": stats}
                 if r == z3.sat:
-                    m = solver.model()
                     cex = [m.eval(b, model_completion=True).as_long() for b in data]
                     # replay natively
                     rax, _ = run_native(exe, func, setup.args, [dict(base=setup.regions[0]["base"], size=n, init=cex)])
